@@ -63,4 +63,25 @@ theorem py_reset_ephemeral (restart teardownSet : Bool) :
   unfold Reset._reset
   cases restart <;> simp
 
+/-! ## `teardown`, `reestablish`, `stop` -/
+
+/-- the control part of the model's state as the state of the translated methods -/
+def ctl (s : State) (idle : Bool) : ControlSt := ⟨(s.teardown.getD 0 : Nat), s.restart, idle⟩
+
+/-- `Peer.teardown(code)` as the API calls it (restart left at its default True) = the model's `.teardown code`. -/
+theorem py_teardown_eq_model (s : State) (code : Nat) :
+    Control.teardown (ctl s false) code true = .ret () (ctl (react s (.teardown code)).1 false) := by
+  simp [Control.teardown, react, ctl]
+
+/-- `Peer.reestablish()` = the model's `.reestablish` (teardown 3, the peer restarts). -/
+theorem py_reestablish_eq_model (s : State) :
+    Control.reestablish (ctl s false) = .ret () (ctl (react s .reestablish).1 false) := by
+  simp [Control.reestablish, react, ctl]
+
+/-- `Peer.stop()` = `stopP` of the model: teardown 3, no restart, the FSM goes to IDLE. -/
+theorem py_stop_eq_model (s : State) :
+    Control.stop (ctl s false) = .ret () (ctl (stopP s).1 true) ∧ (stopP s).1.fsm = .idle ∧
+      stopChangesToIdle = true := by
+  refine ⟨by simp [Control.stop, stopP, fsmTo, ctl], by simp [stopP, fsmTo], by decide⟩
+
 end Exa.Session
